@@ -209,7 +209,7 @@ fn alloc_steps() -> impl Strategy<Value = Vec<AllocStep>> {
     )
 }
 
-fn case() -> impl Strategy<Value = LoopCase> {
+pub fn case() -> impl Strategy<Value = LoopCase> {
     (1u64..=50).prop_flat_map(|q| {
         let boundary = (0u32..=10, -1i64..=1).prop_map(move |(j, d)| (((100 * q) >> j) as i64 + 1 + d).max(0) as u64);
         let cost = prop_oneof![
@@ -309,5 +309,5 @@ fn golden(_: crate::engine::Tier) -> Vec<LoopCase> {
 
 fn groups(g: &mut Groups) {
     g.enumerate("threshold", golden, false, check_case);
-    g.prop("random", 6_000, 200_000, case(), check_case);
+    g.prop("random", 36_000, 200_000, || case(), check_case);
 }
